@@ -147,12 +147,18 @@ func (rf *Ref) MutatedPublished() []int {
 }
 
 // LoaderOptions returns the option set cmds/server/main.go uses, over simulated seams.
-func LoaderOptions(w *world.World, lg *Logger, kc *Keychain) ([]loader.Option, error) {
+func LoaderOptions(w *world.World, lg *Logger, kc *Keychain, span bool) ([]loader.Option, error) {
 	acct, err := local.New(lg, local.SetLogSink(w.Sink))
 	if err != nil {
 		return nil, err
 	}
-	return []loader.Option{
+	opts := []loader.Option{}
+	if span {
+		// a deployment that mirrors traffic: the span handler dials its destination for
+		// every new session; the destinations the generator writes refuse the connection
+		opts = append(opts, loader.RegisterHandlerType(config.SPAN, handlers.NewSpan(lg)))
+	}
+	return append(opts,
 		loader.SetLoggerProvider(lg),
 		loader.SetKeychainProvider(secret.New()),
 		loader.SetConfigProvider(config.New()),
@@ -161,17 +167,17 @@ func LoaderOptions(w *world.World, lg *Logger, kc *Keychain) ([]loader.Option, e
 		loader.RegisterHandlerType(config.START, handlers.NewStart(lg)),
 		loader.RegisterAuthenticator(config.BCRYPT, bcrypt.New(lg, kc)),
 		loader.RegisterAccounter(config.FILE, acct),
-	}, nil
+	), nil
 }
 
 // BuildRef assembles the reference server's provider from the first document, exactly
 // as cmds/server/main.go does, over the simulated seams.
-func BuildRef(ctx context.Context, w *world.World, lg *Logger, kc *Keychain, format string, text []byte, clients []plan.ClientSpec) (*Ref, error) {
+func BuildRef(ctx context.Context, w *world.World, lg *Logger, kc *Keychain, format string, text []byte, clients []plan.ClientSpec, span bool) (*Ref, error) {
 	src := NewSource(format)
 	if err := src.Unmarshal(text); err != nil {
 		return nil, fmt.Errorf("initial document rejected: %w", err)
 	}
-	opts, err := LoaderOptions(w, lg, kc)
+	opts, err := LoaderOptions(w, lg, kc, span)
 	if err != nil {
 		return nil, err
 	}
